@@ -50,7 +50,7 @@ OPTIONAL_GROUPS = ("fullx",)
 
 
 def setup(tier):
-    common.install()
+    common.install(td_modules=("ramses_tx.parsers", "ramses_tx.transport"))
     import ramses_tx.message  # noqa: F401
     import ramses_tx.transport  # noqa: F401
 
@@ -171,6 +171,10 @@ class SymByteStr:
     def __bool__(self):
         return len(self.s) > 0
 
+    def __getitem__(self, k):
+        r = self.s[k]
+        return SymByteStr(r) if isinstance(k, slice) else r
+
     def __sx_contains__(self, item):
         from symx.strings import _contains
 
@@ -246,6 +250,101 @@ def h_partition(ctx, nb, nd):
         inner = SymByteStr(body + es[-2:-1]).__sx_contains__(b"\r\n") if len(es) >= 3 else False
         ctx.check(symx.s_and(ok_end, symx.s_not(inner)), "C01:each-emitted-line-is-one-CRLF-terminated-line")
     return f"{len(emitted)} lines, tail {len(tail_s)}"
+
+
+def run_portstream(first, second):
+    """two frames through the serial receive path proper: the decorated PortTransport._pkt_read (sync-cycle
+    tracker) on a bare PortTransport; -> (exception | None, codes delivered, loop exceptions)"""
+    import asyncio
+
+    from ramses_tx import transport as T
+    from symx.vloop import VLoop, running
+
+    loop = VLoop(0)
+    tx = object.__new__(T.PortTransport)
+    tx._loop = loop
+    tx._closing = False
+    tx._this_pkt = tx._prev_pkt = None
+    tx._extra = {}
+    tx._inbound_rule, tx._outbound_rule = {}, {}
+    tx._protocol = _Proto()
+    with running(loop):
+        tx._init_fut = loop.create_future()
+        tx._init_fut.set_result(None)
+    T._global_sync_cycles.clear()
+    err = None
+    try:
+        for k, line in enumerate((first, second)):
+            tx._frame_read(f"2023-01-01T00:00:0{k}.000", line)
+    except Exception as e:  # noqa: BLE001
+        err = e
+    loop.run()
+    return err, [str(m.code) for m in tx._protocol.msgs], loop.exc_contexts
+
+
+def h_portstream(ctx, head, pay, head2, pay2):
+    """a truncated / corrupted first frame must not make the receive path raise on a later good frame"""
+    import symx
+
+    kind = symx.choice(ctx, "first", ["truncated", "window"])
+    if kind == "truncated":
+        n = symx.choice(ctx, "n", list(range(1, len(pay) // 2 + 1)))
+        first = head[:46] + f"{n:03d}" + " " + pay[: 2 * n]
+    else:
+        off = symx.choice(ctx, "off", list(range(0, len(pay), 4)))
+        w = min(4, len(pay) - off)
+        first = head + pay[:off] + symx.sym_hex(ctx, "w", w) + pay[off + w :]
+    err, codes, excs = run_portstream(first, head2 + pay2)
+    ctx.check(err is None, "C01:serial-receive-path-never-raises", info=type(err).__name__ if err else None)
+    ctx.check(not excs, "C01:no-exception-left-in-the-loop", info=str(excs[:1])[:100])
+    ctx.check(bool(codes) and codes[-1] == head2[41:45], "C01:lines-after-a-bad-line-are-delivered", info=codes)
+    return len(codes)
+
+
+BIG = ("045  I --- 01:145038 --:------ 01:145038 30C9 003 0007D0\r\n" * 14).encode("ascii")  # 840 bytes, 14 frames
+
+
+def h_partition_big(ctx):
+    """a buffer tail (2 symbolic bytes) + one read of 840 bytes holding 14 frames: all 14 come out"""
+    import symx
+    from ramses_tx import transport as T
+
+    B = symx.sym_chars(ctx, "B", 2, lo=0, hi=255)
+    has = SymByteStr(B).__sx_contains__(b"\r\n")
+    if not isinstance(has, bool):
+        ctx.assume(symx.s_not(has).e)
+    emitted = []
+
+    class _Serial:
+        def read(self, n):
+            return SymByteStr(BIG.decode("latin-1"))
+
+    class _Tx:
+        _recv_buffer = SymByteStr(B)
+        _max_read_size = 4096
+        _closing = False
+        serial = _Serial()
+
+        def _dt_now(self):
+            from datetime import datetime
+
+            return datetime(2023, 1, 1)
+
+        def _frame_read(self, dtm, line):
+            emitted.append(line)
+
+    saved = (T._str, T._normalise)
+    T._str = lambda v: v
+    T._normalise = lambda v: v
+    try:
+        tx = _Tx()
+        T.PortTransport._read_ready(tx)
+    finally:
+        T._str, T._normalise = saved
+    ctx.check(len(emitted) == 14, "C01:emitted-lines-plus-tail-are-the-bytes-received", info=f"{len(emitted)} of 14 lines from one 840-byte read")
+    tail = SymByteStr._of(tx._recv_buffer)
+    ctx.check(len(tail) == 0, "C01:kept-tail-has-no-line-end", info=f"tail of {len(tail)} bytes")
+    return len(emitted)
 
 
 def h_line(ctx, n, lead):
@@ -366,6 +465,10 @@ def decode_queries(prop, tier, seed):
                 via = ("file", "port", "dict")[(off // 4) % 3] if prop == "C01" else "file"
                 qs.append(Query(f"win[{verb}|{code}|{len(pay) // 2}@{off}+{w}]", lambda c, a=(head, pay, "", off, w, via): D.h_window(c, prop, *a),
                                 {"h": "win", "head": head, "pay": pay, "off": off, "w": w, "via": via}, group=f"win:{code}", max_secs=secs * (3 if mode == "bv" else 1), max_paths=20_000, mode=mode, weight=len(pay) / 100 + (5 if mode == "bv" else 0)))
+    # every logged frame cut down to each shorter payload length
+    for verb, code, head, pay in _bases(2 if thorough else 1):
+        if len(pay) >= 4:
+            qs.append(Query(f"trunc[{verb}|{code}|{len(pay) // 2}]", lambda c, a=(head, pay): D.h_trunc(c, prop, *a), {"h": "trunc", "head": head, "pay": pay}, group="trunc", max_secs=120, weight=1))
     if prop == "C05":
         # the logged frames themselves, nothing symbolic: the real lru_caches / memoised attributes are all
         # active here (they are bypassed for symbolic arguments), so order- and cache-dependence shows
@@ -428,6 +531,14 @@ def queries(tier, seed):
     for nb in range(0, (6 if thorough else 4)):
         for nd in range(1, (7 if thorough else 5)):
             qs.append(Query(f"partition[B={nb},D={nd}]", lambda c, a=(nb, nd): h_partition(c, *a), {"h": "partition", "nb": nb, "nd": nd}, group="partition", max_secs=600 if thorough else 120, max_paths=200_000, weight=nb + nd))
+    # the serial receive path proper (sync-cycle tracker): a bad frame, then a good one of the same code from another device
+    for code in (("1F09", "30C9", "2309", "3150", "0008", "1FC9") if thorough else ("1F09", "30C9", "2309")):
+        b = next(((v, c, h, p) for v, c, h, p in bases if c == code and v == " I"), None)
+        if b:
+            head2 = b[2][:11] + "01:999999 --:------ 01:999999" + b[2][40:]
+            qs.append(Query(f"portstream[{code}]", lambda c, a=(b[2], b[3], head2, b[3]): h_portstream(c, *a), {"h": "portstream", "head": b[2], "pay": b[3], "head2": head2, "pay2": b[3]}, group="stream", max_secs=200, weight=4))
+    # one big read (many frames at once) on top of a symbolic buffer
+    qs.append(Query("partition[big]", lambda c: h_partition_big(c), {"h": "partition_big"}, group="partition", max_secs=300, weight=6))
     for n in ((2, 4, 6, 8) if thorough else (2, 4)):
         for lead in ("", "045  I --- 01:145038 --:------ 01:145038 30C9 003 0007", "# evofw3 "):
             qs.append(Query(f"line[{n}|{len(lead)}]", lambda c, a=(n, lead): h_line(c, *a), {"h": "line", "n": n, "lead": lead}, group="line", max_secs=240, max_paths=100_000, weight=n))
@@ -450,7 +561,7 @@ def queries(tier, seed):
 def replay(item):
     common.plain_imports()
     h = item["params"]["h"]
-    if h in ("win", "full", "field", "array", "addrset"):
+    if h in ("win", "full", "field", "array", "addrset", "trunc"):
         return D.replay_decode(item)
     cex, prm = item["cex"], item["params"]
     if h == "stream":
@@ -459,7 +570,82 @@ def replay(item):
         return _replay_partition(cex, prm, item["label"])
     if h == "line":
         return _replay_line(cex, prm, item["label"])
+    if h == "portstream":
+        pay = prm["pay"]
+        if cex.get("first") == "truncated":
+            n = int(cex["n"])
+            first = prm["head"][:46] + f"{n:03d}" + " " + pay[: 2 * n]
+        else:
+            off = int(cex.get("off", 0))
+            w = min(4, len(pay) - off)
+            first = prm["head"] + pay[:off] + cex.get("w", pay[off : off + w]) + pay[off + w :]
+        err, codes, excs = run_portstream_plain(first, prm["head2"] + prm["pay2"])
+        bad = err is not None or bool(excs) or not codes or codes[-1] != prm["head2"][41:45]
+        return {"reproduced": bad, "observed": f"{first!r} then a good {prm['head2'][41:45]}: raised {type(err).__name__ if err else None}, delivered {codes}, loop exceptions {len(excs)}", "signature": f"serial receive path raises {type(err).__name__}" if err else "serial receive path: later line not delivered"}
+    if h == "partition_big":
+        from ramses_tx import transport as T
+
+        B = cex.get("B", "").encode("latin-1")
+        emitted = []
+
+        class _Serial:
+            def read(self, n):
+                return BIG
+
+        class _Tx:
+            _recv_buffer = B
+            _max_read_size = 4096
+            _closing = False
+            serial = _Serial()
+
+            def _dt_now(self):
+                from datetime import datetime
+
+                return datetime(2023, 1, 1)
+
+            def _frame_read(self, dtm, line):
+                emitted.append(line)
+
+        saved = (T._str, T._normalise)
+        T._str = lambda v: v
+        T._normalise = lambda v: v
+        try:
+            tx = _Tx()
+            T.PortTransport._read_ready(tx)
+        finally:
+            T._str, T._normalise = saved
+        return {"reproduced": len(emitted) != 14, "observed": f"buffer {B!r} + one 840-byte read of 14 frames -> {len(emitted)} lines emitted", "signature": "read partitioning: frames of a large read are lost"}
     return {"reproduced": False, "observed": f"no replay for {h}", "signature": None, "runner_error": True}
+
+
+def run_portstream_plain(first, second):
+    import asyncio
+
+    from ramses_tx import transport as T
+
+    async def go():
+        loop = asyncio.get_running_loop()
+        tx = object.__new__(T.PortTransport)
+        tx._loop = loop
+        tx._closing = False
+        tx._this_pkt = tx._prev_pkt = None
+        tx._extra = {}
+        tx._inbound_rule, tx._outbound_rule = {}, {}
+        tx._protocol = _Proto()
+        tx._init_fut = loop.create_future()
+        tx._init_fut.set_result(None)
+        T._global_sync_cycles.clear()
+        err = None
+        try:
+            for k, line in enumerate((first, second)):
+                tx._frame_read(f"2023-01-01T00:00:0{k}.000", line)
+        except Exception as e:  # noqa: BLE001
+            err = e
+        await asyncio.sleep(0.01)
+        return err, [str(m.code) for m in tx._protocol.msgs]
+
+    (err, codes), errs = _run_plain_loop(go)
+    return err, codes, errs
 
 
 def _run_plain_loop(coro_fn):
